@@ -39,5 +39,7 @@ namespace sqf::opcodes
             auto casted = dynamic_cast<const push*>(p_other);
             return casted != nullptr && casted->m_value == m_value;
         }
+        // pushed values compare by value (0 == -0), not by their printed form
+        virtual std::size_t hash() const override { return m_value.hash(); }
     };
 }
